@@ -340,7 +340,13 @@ def r015_param_routing(ctx, rule):
         st = [x for x in r.events if x.kind == "store" and x.data.get("tkind") == "sub" and x.func == fq and x.data["value"] is c_.data["result"]]
         ok = len(st) == 1 and st[0].data["key"] is mk("attr", c_.data["result"], "name") and st[0].pc == c_.pc
         ctx.ob(rule, fq, st[0].node if st else c_.node, ok, "the wrapper is registered under its own name", construct=f"registration {c_.line}")
-    ok = bool(r.returns) and all(v.op in ("upd", "loopout", "dict") for _, v in r.returns)
+    def _alts(v):
+        if v.op == "ite":
+            return _alts(v.args[1]) + _alts(v.args[2])
+        if v.op == "assume":
+            return _alts(v.args[1])
+        return [v]
+    ok = bool(r.returns) and all(x.op in ("upd", "loopout", "dict") for _, v in r.returns for x in _alts(v))
     ctx.ob(rule, fq, None, ok, "the dictionary of wrappers is returned", construct="routing result")
     # the flag that makes the public results scalars / Series (single callable) or frames (dictionary)
     fl = [x for x in r.events if x.kind == "store" and x.data.get("tkind") == "attr" and x.data["attr"] == "_user_supplied_callable" and x.func == fq]
@@ -421,6 +427,11 @@ def r013_grouping(ctx):
                 bad.append(f"{fqn.split(':')[1]}:{e.line} reindex with fill")
     ctx.ob("R01.3", DR + "._apply_functions", None, not bad, "empty intersections stay NaN: no fill value / dropna / fillna on the "
            "result path" if not bad else "; ".join(bad), construct="no fill or drop")
+    ctx.guard(_r013_apply_to_dataframe, ctx)
+
+
+def _r013_apply_to_dataframe(ctx):
+    A2 = Analysis(ctx, no_inline=[M_DR + ":apply_to_dataframe"])
     rd = A2.run(M_DR + ":apply_to_dataframe")
     st = [e for e in rd.events if e.kind == "store" and e.data.get("tkind") == "sub" and e.loops]
     ok = len(st) == 1
